@@ -180,6 +180,47 @@ def shard_exotic(args):
     return acc.export()
 
 
+def shard_measured_first(args):
+    """Operands whose every memo (s, len, width, str) was filled before the operation, with double-width / zero-width characters in
+    them: len / text / cells of f*n, f+g, str+f, join and slices must not pick up a wrong memo."""
+    tier, seed, idx = args
+    acc = Acc(seed=seed)
+    k = 0
+    for text in ("你好!", "aＥ", "e\u0301x", "Ｅ\u200dＥ", "ab"):
+        for spec in C.cuts(text, max_runs=2, palette=C.P2):
+            k += 1
+            if k % 4 != idx:
+                continue
+            fc = C.spec_cells(spec)
+            shown = C.show_spec(spec)
+
+            def fresh():
+                f = C.build(spec)
+                str(f), len(f), f.s, f.width
+                return f
+
+            ops = [
+                ("f*2", lambda f: f * 2, fc * 2), ("f*3", lambda f: f * 3, fc * 3), ("f*1", lambda f: f * 1, fc), ("f+f", lambda f: f + f, fc + fc),
+                ("f+'Ｅ'", lambda f: f + "Ｅ", fc + [("Ｅ", ())]), ("'好'+f", lambda f: "好" + f, [("好", ())] + fc), ("f[1:]", lambda f: f[1:], fc[1:]),
+                ("f.join([f,'Ｅ'])", lambda f: f.join([f, "Ｅ"]), fc + fc + [("Ｅ", ())]), ("f.copy()", lambda f: f.copy(), fc),
+            ]
+            for label, fn, want in ops:
+                case = {"f": shown, "op": label, "operand": "every memo filled first"}
+                acc.case(True, key=("mf", spec, label), sample=case)
+                acc.transitions += 1
+                try:
+                    r = fn(fresh())
+                    got = C.cells(r)
+                    ln, txt = len(r), r.s
+                    sl = C.cells(r[len(want) - 1 :]) if want else []
+                except Exception as ex:  # noqa
+                    acc.failure("C06:op_raises:" + type(ex).__name__, case, repr(ex))
+                    continue
+                if got != want or ln != len(want) or txt != "".join(c for c, _ in want) or sl != want[len(want) - 1 :]:
+                    acc.failure("C06:op_result", case, "cells %r len %r text %r last-char slice %r; expected %r" % (got, ln, txt, sl, want))
+    return acc.export()
+
+
 def shard_add(args):
     tier, seed, idx = args
     acc = Acc(seed=seed)
@@ -290,6 +331,8 @@ def run(ctx):
         rep.merge(d, "index_slice_mul")
     for d in ctx.pmap(shard_exotic, [(ctx.tier, ctx.seed, i) for i in range(16)]):
         rep.merge(d, "long_and_exotic_values")
+    for d in ctx.pmap(shard_measured_first, [(ctx.tier, ctx.seed, i) for i in range(4)]):
+        rep.merge(d, "measured_operands")
     for d in ctx.pmap(shard_add, [(ctx.tier, ctx.seed, i) for i in range(NSHARDS)]):
         rep.merge(d, "add")
     for d in ctx.pmap(shard_join, [(ctx.tier, ctx.seed, i) for i in range(16)]):
